@@ -199,13 +199,15 @@ def oracle(case, out):
     if m.get("ms") == "roundtrip":
         items = m["items"]
         base = len(L) - len(items)  # 1-based line of first read = base
-        wrote_ok = True
+        # the items written before the first failed write (a full buffer) must be read back exactly
+        nok = 0
         for i in range(len(items)):
             st = vals(out, 3 + i, "state")
             if st is None or st[0] != 0:
-                wrote_ok = False
-        if wrote_ok:
-            for i, (kind, sz, hx) in enumerate(items):
+                break
+            nok += 1
+        if nok:
+            for i, (kind, sz, hx) in enumerate(items[:nok]):
                 v = vals(out, base + i, "val")
                 if v is None:
                     viol.append("no value read back"); break
